@@ -923,7 +923,7 @@ async fn takeover_body(stack: Stack, case: &TakeoverCase) -> R<()> {
 // C16 — the will decision logic of remote()
 // =======================================================================================
 
-pub const C16_E5_RULE: &str = "E5: a real connection task (v4 or v5 listener) whose CONNECT registers a will (topic w/a or w/b, 1-8 byte payload, QoS 0-2, optionally retained; v5 optionally with a will-delay property and no session expiry, i.e. effective delay 0, and further will properties) or no will; 0-3 packets are exchanged; the connection then ends by DISCONNECT (then close, or wait for the broker's close), by dropping the stream (after CONNACK, after a PUBLISH that was not yet acknowledged, in the middle of a packet), by a malformed packet, by a router-initiated close (unsolicited PUBACK / PUBREC / PUBCOMP / PUBREL, v5 PUBLISH with topic alias 0, SUBSCRIBE to a $-filter) or (thorough tier) by keep-alive expiry. An observer (v4 or v5) holds ONE subscription (w/a, w/b, w/+ or w/#). After the connection task was joined a controller publishes a sentinel on a topic of that filter; the observer must have received, before the sentinel, exactly one copy of the will (topic, payload) iff a will was registered, no DISCONNECT was sent and the topic matches the filter, and nothing otherwise. A late subscriber (of the other protocol version than the observer) then receives the retained copy iff the will fired with retain set. Regions F1 (stream dropped before the CONNACK could be written), F3 (DISCONNECT sent while a write towards the client is pending or failing: the subject never subscribes, so nothing is owed to it when it disconnects) and F4 (an earlier connection of the same client id that ended with DISCONNECT is still waiting out a will delay when the subject connects with a clean start) are excluded by construction and probed separately. In a fifth of the cases with a client-side end the router is backed up at that moment (it takes no turns and its event channel is filled up to one free slot with work-less wake-ups, released by a helper thread once the channel has been full for 10 ms): what remote() hands to the router has to wait for capacity and must not be dropped. Takeovers are not generated. Non-trivial: will registered, matching observer, end other than DISCONNECT.";
+pub const C16_E5_RULE: &str = "E5: a real connection task (v4 or v5 listener) whose CONNECT registers a will (topic w/a or w/b, 1-8 byte payload, QoS 0-2, optionally retained; v5 optionally with a will-delay property and no session expiry, i.e. effective delay 0, and further will properties) or no will; 0-3 packets are exchanged; the connection then ends by DISCONNECT (then close, or wait for the broker's close), by dropping the stream (after CONNACK, after a PUBLISH that was not yet acknowledged, in the middle of a packet), by a malformed packet, by a router-initiated close (unsolicited PUBACK / PUBREC / PUBCOMP / PUBREL, v5 PUBLISH with topic alias 0, SUBSCRIBE to a $-filter) or (thorough tier) by keep-alive expiry. An observer (v4 or v5) holds ONE subscription (w/a, w/b, w/+ or w/#). After the connection task was joined a controller publishes a sentinel on a topic of that filter; the observer must have received, before the sentinel, exactly one copy of the will (topic, payload) iff a will was registered, no DISCONNECT was sent and the topic matches the filter, and nothing otherwise. A late subscriber (of the other protocol version than the observer) then receives the retained copy iff the will fired with retain set. Regions F1 (stream dropped before the CONNACK could be written), F3 (DISCONNECT sent while a write towards the client is pending or failing: the subject never subscribes, so nothing is owed to it when it disconnects) and F4 (an earlier connection of the same client id that ended with DISCONNECT is still waiting out a will delay when the subject connects with a clean start) are excluded by construction and probed separately. In a fifth of the cases with a client-side end the router is backed up at that moment (it takes no turns and its event channel is filled up to one free slot with work-less wake-ups, released by a helper thread once the channel has been full for 10 ms): what remote() hands to the router has to wait for capacity and must not be dropped. In a fifth of the client-side ends the subject holds a QoS 1 subscription of its own and a message for it is published right before the end without waiting, so that a forward towards the subject is being written when its DISCONNECT / close arrives. Takeovers are not generated. Non-trivial: will registered, matching observer, end other than DISCONNECT.";
 
 const WILL_TOPICS: [&str; 2] = ["w/a", "w/b"];
 /// (filter, topic on which the controller publishes sentinels)
@@ -992,6 +992,11 @@ pub struct C16Case {
     /// but its connection task is still waiting out the delay when the subject connects
     #[serde(default)]
     pub predecessor: bool,
+    /// the subject holds a QoS 1 subscription of its own and a message for it is published
+    /// right before the end (not awaited): a forward towards the subject is being written, or
+    /// about to be, when its DISCONNECT / close arrives (F3 as it was first seen, repaired)
+    #[serde(default)]
+    pub late_forward: bool,
 }
 
 fn will_spec() -> BoxedStrategy<WillSpec> {
@@ -1039,9 +1044,9 @@ fn c16_case(keepalive: bool) -> BoxedStrategy<C16Case> {
         prop_oneof![5 => will_spec().prop_map(Some), 1 => Just(None)],
         prop::collection::vec(0u8..3, 0..=3),
         end_strategy(keepalive),
-        (prop::bool::weighted(0.5), prop::bool::weighted(0.2), prop::bool::weighted(0.15)),
+        (prop::bool::weighted(0.5), prop::bool::weighted(0.2), prop::bool::weighted(0.15), prop::bool::weighted(0.2)),
     )
-        .prop_map(move |(seed, ver, obs_ver, obs_filter, obs_qos, mut will, pre, end, (late_subscriber, backed_up, predecessor))| {
+        .prop_map(move |(seed, ver, obs_ver, obs_filter, obs_qos, mut will, pre, end, (late_subscriber, backed_up, predecessor, late_forward))| {
             if let Some(w) = will.as_mut() {
                 if ver == Ver::V4 {
                     w.delay = None;
@@ -1050,7 +1055,8 @@ fn c16_case(keepalive: bool) -> BoxedStrategy<C16Case> {
             }
             let client_side = matches!(end, End::Disconnect { .. } | End::DisconnectProps { .. } | End::Close | End::CloseAfterPublish { .. } | End::CloseMidPacket { .. });
             let predecessor = predecessor && ver == Ver::V5 && !keepalive && end != End::CloseBeforeConnack;
-            C16Case { seed, ver, obs_ver, obs_filter, obs_qos, will, pre, end, late_subscriber, backed_up: backed_up && client_side, predecessor }
+            let late_forward = late_forward && F3_FIXED && client_side && !backed_up;
+            C16Case { seed, ver, obs_ver, obs_filter, obs_qos, will, pre, end, late_subscriber, backed_up: backed_up && client_side, predecessor, late_forward }
         })
         .boxed()
 }
@@ -1112,6 +1118,7 @@ impl Campaign for C16Wills {
                     C16Mode::ProbeF1 => {
                         c.backed_up = false;
                         c.predecessor = false;
+                        c.late_forward = false;
                         c.end = End::CloseBeforeConnack;
                         c.will.get_or_insert(w);
                         c.obs_filter = 1; // w/# matches every will topic
@@ -1119,6 +1126,7 @@ impl Campaign for C16Wills {
                     C16Mode::ProbeF4 => {
                         c.ver = Ver::V5;
                         c.backed_up = false;
+                        c.late_forward = false;
                         c.predecessor = true;
                         c.will.get_or_insert(w);
                         c.obs_filter = 1;
@@ -1129,6 +1137,7 @@ impl Campaign for C16Wills {
                     C16Mode::ProbeF3 => {
                         c.backed_up = false;
                         c.predecessor = false;
+                        c.late_forward = false;
                         c.end = End::DisconnectWhileWriteBlocked;
                         c.will.get_or_insert(w);
                         c.obs_filter = 1;
@@ -1168,6 +1177,7 @@ impl Campaign for C16Wills {
         obs.class_if(case.will.is_some(), "will_registered");
         obs.class_if(case.backed_up, "router_backed_up_at_the_end");
         obs.class_if(case.predecessor, "predecessor_task_waiting_out_a_will_delay");
+        obs.class_if(case.late_forward, "forward_towards_the_subject_in_flight_at_the_end");
         obs.class_if(polite, "end_disconnect");
         obs.class_if(case.will.is_some() && !polite && matching, "will_expected");
         obs.class_if(case.will.is_some() && !matching, "observer_not_matching");
@@ -1263,9 +1273,9 @@ async fn c16_body(stack: Stack, case: &C16Case, late_ver: Ver) -> R<()> {
             s_fail!("helper_connection_not_admitted", "subject CONNECT answered {other:?}")
         }
     }
-    // The subject publishes to a topic nobody subscribed to (the broker drops such messages) and
-    // never subscribes: nothing but the awaited acknowledgements is ever written to it, so no
-    // write towards it can be pending or fail when it disconnects (region F3).
+    // The subject publishes to a topic nobody subscribed to (the broker drops such messages);
+    // unless `late_forward` is set it never subscribes, so nothing but the awaited
+    // acknowledgements is ever written to it.
     let mut pkid = 10u16;
     for step in &case.pre {
         match step {
@@ -1286,6 +1296,12 @@ async fn c16_body(stack: Stack, case: &C16Case, late_ver: Ver) -> R<()> {
         }
     }
     let mut sent_disconnect = false;
+    if case.late_forward {
+        // own/t is matched by no observer filter; the subject does not read the forward
+        x.auto_ack = false;
+        x.subscribe_wait(7, "own/t", 1, None).await?;
+        controller.publish("own/t", b"late forward", 1, 77).await?;
+    }
     if case.backed_up {
         // id 0 = the observer (first connection of the case): a wake-up without work
         stack.back_up_router(0);
